@@ -7,7 +7,7 @@ KIND_TYPE = {"dom": 3, "str": 4, "app": 19}
 def obj_line(o):
     flags = (2 if o["r"] else 0) | (1 if o["w"] else 0) | o.get("hflags", 0)      # hflags: 80h direct storage, 40h node-id relative
     if o["kind"] == "int":
-        t = {1: 0, 2: 1, 4: 2}[len(o["data"])]
+        t = o.get("htype", {1: 0, 2: 1, 4: 2}[len(o["data"])])      # htype: another object type of the harness with integer storage (7 = CO_TSDO_ID)
         args = o.get("stored", o["data"])          # stored: the raw value (the reference's data is what a client reads)
     elif o["kind"] == "dom":
         t = 3
